@@ -17,7 +17,13 @@ from pandas.api.types import is_bool_dtype
 from pandas.errors import IndexingError
 
 from dask_expr._collection import Series, from_legacy_dataframe, new_collection
-from dask_expr._expr import Blockwise, MaybeAlignPartitions, Projection, are_co_aligned
+from dask_expr._expr import (
+    Blockwise,
+    MaybeAlignPartitions,
+    Partitions,
+    Projection,
+    are_co_aligned,
+)
 from dask_expr._util import is_scalar
 
 
@@ -165,6 +171,15 @@ class LocBase(Blockwise):
     def _task(self, index):
         return self._layer_cache[(self._name, index)]
 
+    def _lower(self):
+        # Blockwise expressions have to compute output partition i from input
+        # partition i (this is what fusion wires up): select the partitions
+        # that the indexer touches first
+        parts = self._frame_partitions
+        if len(parts) < self.frame.npartitions:
+            frame = Partitions(self.frame, parts)
+            return type(self)(frame, self.iindexer, self.cindexer)
+
 
 class LocUnknown(Blockwise):
     _parameters = ["frame", "iindexer", "cindexer"]
@@ -172,6 +187,10 @@ class LocUnknown(Blockwise):
 
 
 class LocElement(LocBase):
+    @property
+    def _frame_partitions(self):
+        return [_get_partitions(self.frame, self.iindexer)]
+
     def _divisions(self):
         return (self.iindexer, self.iindexer)
 
@@ -188,6 +207,12 @@ class LocElement(LocBase):
 
 
 class LocList(LocBase):
+    @property
+    def _frame_partitions(self):
+        if len(self.iindexer):
+            return sorted(_get_partitions(self.frame, self.iindexer))
+        return list(range(self.frame.npartitions))
+
     @functools.cached_property
     def _layer_information(self):
         dsk = {}
@@ -218,6 +243,10 @@ class LocList(LocBase):
 
 
 class LocSlice(LocBase):
+    @property
+    def _frame_partitions(self):
+        return list(range(self.start, self.stop + 1))
+
     @functools.cached_property
     def start(self):
         if self.iindexer.start is not None:
